@@ -162,7 +162,13 @@ impl<B: IoBufMut> Framer<B> for LengthDelimited {
             u64::from_le_bytes(len_bytes)
         } as usize;
 
-        if buf.len() < self.length_field_len + len {
+        let Some(total) = self.length_field_len.checked_add(len) else {
+            return Err(io::Error::new(
+                io::ErrorKind::InvalidData,
+                "frame length overflows usize",
+            ));
+        };
+        if buf.len() < total {
             return Ok(None);
         }
 
